@@ -123,6 +123,7 @@ func workerMain(args []string) {
 	hashUpTo := fs.Int64("hashes", 0, "record trace hashes of runs with index < this")
 	prepass := fs.Bool("prepass", false, "")
 	hangSec := fs.Int("hang", 60, "")
+	forceCfg := fs.String("force-config", "", "every run uses this configuration")
 	_ = fs.Parse(args)
 	chk := checks.Registry[*prop]
 	if chk == nil {
@@ -195,6 +196,9 @@ func workerMain(args []string) {
 			break
 		}
 		cfg := chk.ConfigOf(idx)
+		if *forceCfg != "" {
+			cfg = *forceCfg
+		}
 		rs := core.RunSeed(*seed, chk.ID, uint64(idx))
 		curRun, curSeed, curCfg = idx, rs, cfg
 		tape := core.NewGenTape(rs, false)
@@ -308,6 +312,13 @@ type Replay struct {
 	Rendering    []string `json:"rendering"`
 	HangAPI      string   `json:"hang_api,omitempty"`
 	RepoRevision string   `json:"repo_revision,omitempty"`
+	// Prelude: run indices (same property, tier and VERIF_SEED) executed in this process before the
+	// failing run. Non-empty only when the violation depends on state of pion/rtp that outlives a run
+	// (package-level state): the replay is then the minimised process history, not one run alone.
+	// Instrumented: the replay needs the instrumented build (bin/check replay picks it).
+	Instrumented   bool    `json:"instrumented_build,omitempty"`
+	Prelude        []int64 `json:"prelude_runs,omitempty"`
+	PreludePrePass bool    `json:"prelude_prepass,omitempty"`
 }
 
 func runReplay(r *Replay, verbose bool) (c *core.Ctx, herr string) {
@@ -316,6 +327,18 @@ func runReplay(r *Replay, verbose bool) (c *core.Ctx, herr string) {
 		return nil, "unknown property " + r.Property
 	}
 	st := core.NewStats()
+	if r.PreludePrePass && chk.PrePass != nil {
+		pc := core.NewCtx(chk.ID, "prepass", r.Tier, core.NewGenTape(core.RunSeed(r.VerifSeed, chk.ID+"/prepass", 0), false), core.NewStats(), false)
+		func() {
+			defer func() { _ = recover() }()
+			chk.PrePass(pc)
+		}()
+	}
+	for _, idx := range r.Prelude {
+		if _, h := checks.Execute(chk, chk.ConfigOf(idx), r.Tier, core.NewGenTape(core.RunSeed(r.VerifSeed, chk.ID, uint64(idx)), false), core.NewStats(), false); h != "" {
+			return nil, "prelude run " + strconv.FormatInt(idx, 10) + ": " + h
+		}
+	}
 	if r.PrePass {
 		c = core.NewCtx(chk.ID, "prepass", r.Tier, core.NewGenTape(core.RunSeed(r.VerifSeed, chk.ID+"/prepass", 0), false), st, verbose)
 		func() {
@@ -365,6 +388,10 @@ func replayMain(args []string) int {
 		return 2
 	}
 	quiet := len(args) > 1 && args[1] == "-q"
+	if r.Instrumented && !checks.SchedBuild {
+		fmt.Fprintln(os.Stderr, "this replay needs the instrumented build: use bin/check replay <file>")
+		return 2
+	}
 	c, herr := runReplay(&r, true)
 	if herr != "" {
 		fmt.Fprintln(os.Stderr, herr)
@@ -380,7 +407,7 @@ func replayMain(args []string) int {
 			fmt.Printf("REPRODUCED-WITH-DIFFERENT-TRACE signature=%s trace=%d expected=%d\n", r.Signature, c.TraceHash(), r.TraceHash)
 			return 1
 		}
-		fmt.Printf("REPRODUCED property=%s signature=%s\n  %s\n", r.Property, r.Signature, v.Message)
+		fmt.Printf("REPRODUCED property=%s signature=%s trace=%d\n  %s\n", r.Property, r.Signature, c.TraceHash(), v.Message)
 		return 1
 	}
 	fmt.Printf("NOT-REPRODUCED property=%s signature=%s (found %d other violation(s))\n", r.Property, r.Signature, len(c.Viol))
@@ -391,6 +418,9 @@ func replayMain(args []string) int {
 }
 
 // ---------------------------------------------------------------- check
+
+// forcedConfig is set by `check -only-config`: the second pass of bin/check (instrumented build).
+var forcedConfig string
 
 func spawnWorkers(self, prop, tier string, seed uint64, n int64, w int, deadline time.Time, hashes int64, prepass bool, dir string, gomaxprocs int, hangSec int) ([]*WorkerOut, map[uint64]struct{}, *hangRec, error) {
 	type proc struct {
@@ -406,6 +436,9 @@ func spawnWorkers(self, prop, tier string, seed uint64, n int64, w int, deadline
 			"-hashes", strconv.FormatInt(hashes, 10), "-hang", strconv.Itoa(hangSec)}
 		if prepass && k == 0 {
 			a = append(a, "-prepass")
+		}
+		if forcedConfig != "" {
+			a = append(a, "-force-config", forcedConfig)
 		}
 		cmd := exec.Command(self, a...)
 		cmd.Stderr = os.Stderr
@@ -481,7 +514,10 @@ func checkMain(args []string) int {
 	runsOverride := fs.Int64("runs", 0, "override the number of runs")
 	secOverride := fs.Int("seconds", 0, "override the wall budget")
 	noEvidence := fs.Bool("no-evidence", false, "")
+	onlyCfg := fs.String("only-config", "", "run every run in this configuration (second pass of bin/check)")
+	appendEv := fs.Bool("append-evidence", false, "add this pass to the evidence file the first pass wrote")
 	_ = fs.Parse(args)
+	forcedConfig = *onlyCfg
 	if t := os.Getenv("VERIF_TIER"); t != "" && *tier == "" {
 		*tier = t
 	}
@@ -516,6 +552,14 @@ func checkMain(args []string) int {
 		budget = time.Duration(chk.ThoroughSec) * time.Second
 		hang = 120
 	}
+	if *onlyCfg != "" {
+		// the interleaved pass: a twelfth of the quick runs, a sixth of the thorough budget
+		n = int64(chk.QuickRuns)/12 + 1000
+		if *tier == "thorough" {
+			n = 1 << 40
+			budget = time.Duration(chk.ThoroughSec/6+20) * time.Second
+		}
+	}
 	if *runsOverride > 0 {
 		n = *runsOverride
 	}
@@ -524,7 +568,7 @@ func checkMain(args []string) int {
 	}
 	const detRuns = 48
 	fmt.Printf("verifsim: property=%s tier=%s VERIF_SEED=%d workers=%d\n", chk.ID, *tier, seed, *workers)
-	outs, fps, hangRecord, err := spawnWorkers(self, chk.ID, *tier, seed, n, *workers, t0.Add(budget), detRuns, *tier == "thorough", dir, 0, hang)
+	outs, fps, hangRecord, err := spawnWorkers(self, chk.ID, *tier, seed, n, *workers, t0.Add(budget), detRuns, *tier == "thorough" && *onlyCfg == "", dir, 0, hang)
 	if err != nil {
 		fmt.Fprintln(os.Stderr, "verifsim:", err)
 		return 2
@@ -622,6 +666,10 @@ func checkMain(args []string) int {
 		}
 		path, ok := minimiseAndWrite(self, chk, f, *tier, seed)
 		if !ok {
+			// the run alone does not fail: does the worker's process history reproduce it?
+			path, ok = minimiseWithHistory(self, chk, f, *tier, seed, int64(*workers), *tier == "thorough" && *onlyCfg == "")
+		}
+		if !ok {
 			fmt.Fprintf(os.Stderr, "verifsim: violation %s (run %d) did not reproduce in a fresh process: harness trouble\n", s, f.Run)
 			return 2
 		}
@@ -655,7 +703,12 @@ func checkMain(args []string) int {
 		}
 	}
 	wall := time.Since(t0).Seconds()
-	if !*noEvidence {
+	if !*noEvidence && *appendEv {
+		if err := appendEvidence(chk, *tier, total, len(fps), newViolations, wall, *onlyCfg); err != nil {
+			fmt.Fprintln(os.Stderr, "verifsim: evidence:", err)
+			return 2
+		}
+	} else if !*noEvidence {
 		if err := writeEvidence(chk, *tier, seed, total, len(fps), knownHit, newViolations, wall, detPairs, detMismatch, *workers); err != nil {
 			fmt.Fprintln(os.Stderr, "verifsim: evidence:", err)
 			return 2
@@ -678,6 +731,7 @@ func checkMain(args []string) int {
 }
 
 func writeReplay(r *Replay) string {
+	r.Instrumented = checks.SchedBuild && (r.Property == "C07" || r.Config == checks.InterleavedConfig)
 	dir := filepath.Join(root(), "replays")
 	if d := os.Getenv("VERIF_REPLAYS"); d != "" {
 		dir = d // mutant / seeded-change runs keep their replay files out of /verif/replays
@@ -736,15 +790,87 @@ func minimiseAndWrite(self string, chk *checks.Check, f *Found, tier string, see
 	return path, true
 }
 
+// replaysInFreshProcess writes rp and reports whether a fresh process reproduces its signature.
+func replaysInFreshProcess(self string, rp *Replay) (string, bool) {
+	path := writeReplay(rp)
+	out, err := exec.Command(self, "replay", path, "-q").CombinedOutput()
+	ee, isExit := err.(*exec.ExitError)
+	return path, isExit && ee.ExitCode() == 1 && strings.Contains(string(out), "REPRODUCED property=")
+}
+
+// minimiseWithHistory handles a violation that a fresh process does not reproduce from the failing
+// run alone: the worker that found it had executed other runs before, and pion/rtp may keep state
+// between them (package-level variables). The replay is then the failing run preceded by the
+// worker's earlier runs, minimised (shortest reproducing suffix, then single deletions) with one
+// fresh process per test, because in-process shrinking would itself change that state.
+func minimiseWithHistory(self string, chk *checks.Check, f *Found, tier string, seed uint64, stride int64, prepassRan bool) (string, bool) {
+	if f.PrePass || stride <= 0 {
+		return "", false
+	}
+	sig := f.Violation.Signature
+	var all []int64
+	for i := f.Run % stride; i < f.Run; i += stride {
+		all = append(all, i)
+	}
+	rp := &Replay{Property: chk.ID, Config: f.Config, Tier: tier, VerifSeed: seed, RunIndex: f.Run, RunSeed: f.RunSeed,
+		Oracle: f.Violation.Oracle, Signature: sig, Message: f.Violation.Message,
+		Prelude: all, PreludePrePass: prepassRan && f.Run%stride == 0 && chk.PrePass != nil}
+	tests := 0
+	try := func(pre []int64, pp bool) bool {
+		tests++
+		rp.Prelude, rp.PreludePrePass = pre, pp
+		_, ok := replaysInFreshProcess(self, rp)
+		return ok
+	}
+	fullPP := rp.PreludePrePass
+	if !try(all, fullPP) {
+		return "", false
+	}
+	best, bestPP := all, fullPP
+	if fullPP && try(all, false) {
+		bestPP = false
+	}
+	for k := 1; k < len(all); k *= 2 { // shortest reproducing suffix among 1, 2, 4, …
+		if try(all[len(all)-k:], bestPP) {
+			best = all[len(all)-k:]
+			break
+		}
+	}
+	for i := 0; i < len(best) && tests < 80; { // single deletions
+		cand := append(append([]int64{}, best[:i]...), best[i+1:]...)
+		if try(cand, bestPP) {
+			best = cand
+		} else {
+			i++
+		}
+	}
+	rp.Prelude, rp.PreludePrePass, rp.ShrinkTests = best, bestPP, tests
+	// rendering and trace hash come from a fresh process too (this one has executed shrink tests)
+	path := writeReplay(rp)
+	out, _ := exec.Command(self, "replay", path).CombinedOutput()
+	lines := strings.Split(strings.TrimRight(string(out), "\n"), "\n")
+	for _, l := range lines {
+		if i := strings.Index(l, " trace="); i >= 0 && strings.HasPrefix(l, "REPRODUCED property=") {
+			rp.TraceHash, _ = strconv.ParseUint(strings.TrimSpace(l[i+7:]), 10, 64)
+		}
+	}
+	if len(lines) > 600 {
+		lines = lines[len(lines)-600:]
+	}
+	rp.Rendering = lines
+	rp.Message = f.Violation.Message + " [depends on state that outlives a run: reproduced only after the listed prelude runs in the same process]"
+	return replaysInFreshProcess(self, rp)
+}
+
 // ---------------------------------------------------------------- evidence
 
 func writeEvidence(chk *checks.Check, tier string, seed uint64, tot *WorkerOut, distinct int, knownHit map[string]int64, newViol int, wall float64, detPairs, detMismatch, workers int) error {
 	// samples: re-execute verbosely (throw-away stats) the first run of each configuration, at least 3 runs
 	var samples []interface{}
 	seen := map[string]bool{}
-	for idx := int64(0); idx < 4096 && (len(samples) < 3 || len(seen) < len(chk.Configs)) && len(samples) < 6; idx++ {
+	for idx := int64(0); idx < 4096 && (len(samples) < 3 || len(seen) < len(chk.AllConfigs())) && len(samples) < 6; idx++ {
 		cfg := chk.ConfigOf(idx)
-		if seen[cfg] && len(seen) < len(chk.Configs) {
+		if seen[cfg] && len(seen) < len(chk.AllConfigs()) {
 			continue
 		}
 		seen[cfg] = true
@@ -800,6 +926,78 @@ func writeEvidence(chk *checks.Check, tier string, seed uint64, tot *WorkerOut, 
 	return os.WriteFile(filepath.Join(dir, chk.ID+".json"), b, 0o644)
 }
 
+// appendEvidence adds the interleaved pass (instrumented build) to the evidence file that the
+// first pass of the same bin/check invocation has just written.
+func appendEvidence(chk *checks.Check, tier string, tot *WorkerOut, distinct, newViol int, wall float64, cfg string) error {
+	path := filepath.Join(root(), "evidence", chk.ID+".json")
+	b, err := os.ReadFile(path)
+	if err != nil {
+		return err
+	}
+	var ev map[string]interface{}
+	if err := json.Unmarshal(b, &ev); err != nil {
+		return err
+	}
+	if ev["tier"] != tier {
+		return fmt.Errorf("evidence file is of tier %v, this pass is %s", ev["tier"], tier)
+	}
+	cov, _ := ev["coverage"].(map[string]interface{})
+	if cov == nil {
+		return fmt.Errorf("evidence file has no coverage object")
+	}
+	num := func(m map[string]interface{}, k string) float64 { f, _ := m[k].(float64); return f }
+	addInt := func(m map[string]interface{}, k string, v int64) { m[k] = int64(num(m, k)) + v }
+	addInt(cov, "evaluations", tot.Runs)
+	addInt(cov, "simulated_runs", tot.Runs)
+	addInt(cov, "nontrivial_runs", tot.Nontrivial)
+	addInt(cov, "distinct_nontrivial", int64(distinct))
+	addInt(cov, "simulator_events", int64(tot.Stats.Events))
+	addInt(cov, "library_calls", int64(tot.Stats.Calls))
+	addInt(cov, "tape_draws", int64(tot.Draws))
+	cov["simulated_time_s"] = num(cov, "simulated_time_s") + float64(tot.Stats.SimTimeNs)/1e9
+	mergeCounts := func(key string, add map[string]int64, prefix string) {
+		m, _ := cov[key].(map[string]interface{})
+		if m == nil {
+			m = map[string]interface{}{}
+		}
+		for k, v := range add {
+			addInt(m, prefix+k, v)
+		}
+		cov[key] = m
+	}
+	mergeCounts("faults_fired", tot.Stats.Faults, "")
+	mergeCounts("probes", tot.Stats.Probes, "")
+	rpc := map[string]int64{}
+	for k, v := range tot.PerConfig {
+		rpc[k+" (statement-level, instrumented build)"] = v
+	}
+	mergeCounts("runs_per_config", rpc, "")
+	var sample []string
+	if tot.Runs > 0 {
+		rs := core.RunSeed(uint64(num(ev, "seed")), chk.ID, 0)
+		c, _ := checks.Execute(chk, cfg, tier, core.NewGenTape(rs, false), core.NewStats(), true)
+		sample = c.Lines
+		if len(sample) > 30 {
+			sample = sample[:30]
+		}
+	}
+	cov["interleaved_pass"] = map[string]interface{}{
+		"what": "second pass of bin/check: independent instances on simulated threads, preemption possible before every statement of pion/rtp, codecs, codecs/vp9, codecs/av1/obu, codecs/av1/frame (instrumented copies of the working tree); oracle: every instance's results equal the results of the same calls executed alone",
+		"runs": tot.Runs, "runs_with_preemption_inside_a_call": tot.Nontrivial, "distinct_schedules": distinct,
+		"preemptions": tot.Stats.Faults["preempt"], "wall_s": wall, "new_violations": newViol, "sample_run_0": sample,
+	}
+	ev["wall_s"] = num(ev, "wall_s") + wall
+	ev["violations"] = int64(num(ev, "violations")) + int64(newViol)
+	if w := num(ev, "wall_s"); w > 0 {
+		cov["runs_per_hour"] = int64(num(cov, "simulated_runs") / w * 3600)
+	}
+	out, err := json.MarshalIndent(ev, "", " ")
+	if err != nil {
+		return err
+	}
+	return os.WriteFile(path, out, 0o644)
+}
+
 // ---------------------------------------------------------------- selftest
 
 // selftestMain proves determinism on a sample: the same seeds in fresh processes under
@@ -826,7 +1024,7 @@ func selftestMain(args []string) int {
 			fmt.Fprintln(os.Stderr, "unknown", id)
 			return 2
 		}
-		n := *seeds * int64(len(chk.Configs))
+		n := *seeds * int64(len(chk.AllConfigs()))
 		var ref map[int64]HashRec
 		pairs := 0
 		for _, cfg := range [][2]int{{1, 1}, {4, 4}, {16, 16}, {16, 1}, {3, 4}} {
